@@ -37,6 +37,19 @@ known("C20","C20/not-reflexive/OPT","OPT.isDuplicate is hard-wired to false: an 
 known("C20","C20/not-reflexive/XPRIV","PrivateRR.isDuplicate is hard-wired to false: a user-registered private record is never a duplicate of itself or of its copy")
 fixed("C20","C20/is-true-want-false/AMTRELAY/field","5591374","AMTRELAY records with the discovery bit set and different relays were reported as duplicates (isDuplicate switched on the unmasked type octet)")
 
+# ---- C05
+for t in ("CSYNC","NSEC","NSEC3","NXT"):
+    known("C05","C05/reparse-error/%s/TypeBitMap/boundary1"%t,"a type bitmap containing type 0 prints it as 'None', which the zone parser does not accept (the lookup upper-cases the token)")
+    known("C05","C05/reparse-error/%s/TypeBitMap/boundary2"%t,"a type bitmap containing type 65535 prints it as 'Reserved', which the zone parser does not accept")
+for t in ("RRSIG","SIG"):
+    known("C05","C05/reparse-error/%s/TypeCovered/boundary0"%t,"type covered 0 prints as 'None', which the zone parser does not accept")
+    known("C05","C05/reparse-error/%s/TypeCovered/boundary1"%t,"type covered 65535 prints as 'Reserved', which the zone parser does not accept")
+known("C05","C05/type-code-spelling-rejected/mnemonic:None","Type(0).String() is 'None'; written as a record type it is rejected (TYPE0 is accepted)")
+known("C05","C05/type-code-spelling-rejected/mnemonic:Reserved","Type(65535).String() is 'Reserved'; written as a record type it is rejected (TYPE65535 is accepted)")
+known("C05","C05/reparse-error/URI/Target/len300","a URI target longer than 255 octets prints as one quoted string that the parser splits into 255-octet chunks and then rejects ('bad URI Target')")
+known("C05","C05/reparse-error/CAA/Value/len300","a CAA value longer than 255 octets prints as one quoted string that the parser splits into 255-octet chunks and then rejects ('bad CAA Value')")
+fixed("C05","C05/rdata-differs/NSEC3/Salt/boundary1","9e33174","NSEC3.parse and HIP.parse converted the hex length to uint8 before halving it: salts / HITs of 128..255 octets got a wrong length field when read from text")
+fixed("C05","C05/reparse-error/X25/PSDNAddress/space","bd5e33b","X25 printed its PSDN address verbatim (no quoting) and parsed a single bare token: addresses with blanks, ';', parentheses or empty could not be read back")
 # ---- C11
 fixed("C11","C11/accepts-altered/field/fudge-zero","a6d820e","TsigVerify substituted the default fudge 300 (and the current time) for a zero fudge / time signed found in the received TSIG, so a message whose fudge was changed from 300 to 0 still verified")
 # ---- C15
